@@ -143,22 +143,22 @@ pub fn machines(opts: &Opts) -> Vec<MCfg> {
             m.seeds = vec![0];
             m.merged = false;
             out.push(m);
-            let mut m = base_cfg("N2P3G2/caller-held-seeds", same_shape_leaves(var), vec![OpK::Add, OpK::Mul, OpK::Reshape(vec![1, 2])], 7);
-            m.bounds = Bounds { builds: 2, passes: 3, fetches: 2, clears: 1, depth: 7, ..Bounds::default() };
+            let mut m = base_cfg("N1P3G2C1/caller-held-seeds", same_shape_leaves(var), vec![OpK::Add, OpK::Mul, OpK::Reshape(vec![1, 2])], 7);
+            m.bounds = Bounds { builds: 1, passes: 3, fetches: 2, clears: 1, depth: 7, ..Bounds::default() };
             m.seeds = vec![0, 3];
             out.push(m);
-            let mut m = base_cfg("N3P2C1/long-arrays", long_leaves(var), vec![OpK::Add, OpK::Mul, OpK::Neg], 6);
-            m.bounds = b(3, 2, 1, 0, 6);
+            let mut m = base_cfg("N2P2C1D1/long-arrays", long_leaves(var), vec![OpK::Add, OpK::Mul, OpK::Neg], 5);
+            m.bounds = b(2, 2, 1, 1, 6);
             m.seeds = vec![0];
             out.push(m);
-            let mut m = base_cfg("N3P2C1/dense-like", dense_leaves(var), vec![OpK::Matmul { ta: false, tb: true, bias: true }, OpK::Relu, OpK::Mul, OpK::Sum(1)], 6);
-            m.bounds = b(3, 2, 1, 0, 6);
+            let mut m = base_cfg("N2P2C1D1/dense-like", dense_leaves(var), vec![OpK::Matmul { ta: false, tb: true, bias: true }, OpK::Relu, OpK::Mul, OpK::Sum(1)], 5);
+            m.bounds = b(2, 2, 1, 1, 6);
             m.seeds = vec![0, 1];
             m.check_fresh_diff = true;
             out.push(m);
             let two: Vec<LeafSpec> = same_shape_leaves(var).into_iter().take(2).collect();
-            let mut m = base_cfg("N2P3F2K1D1/handles-between-passes", two, vec![OpK::Mul, OpK::Neg], 5);
-            m.bounds = Bounds { builds: 2, passes: 3, flags: 2, clones: 1, drops: 1, clears: 1, depth: 8, ..Bounds::default() };
+            let mut m = base_cfg("N1P3F2K1D1C1/handles-between-passes", two, vec![OpK::Mul], 4);
+            m.bounds = Bounds { builds: 1, passes: 3, flags: 2, clones: 1, drops: 1, clears: 1, depth: 7, ..Bounds::default() };
             m.seeds = vec![0];
             m.flag_kinds = vec![0, 1, 2, 3];
             m.touch_leaves = true;
@@ -171,7 +171,14 @@ pub fn machines(opts: &Opts) -> Vec<MCfg> {
 pub fn run_all(opts: &Opts, cfgs: Vec<MCfg>) -> (Local, Vec<serde_json::Value>) {
     let mut total = Local::new(opts.only.clone());
     let mut stats = Vec::new();
+    let filter = std::env::var("VERIF_MACHINE").ok();
     for cfg in cfgs {
+        // debugging aid: VERIF_MACHINE=<substring> runs only the machines whose name contains it
+        if let Some(f) = &filter {
+            if !cfg.name.contains(f.as_str()) {
+                continue;
+            }
+        }
         let name = cfg.name.clone();
         let bounds = format!("{:?}", cfg.bounds);
         let ops: Vec<String> = cfg.ops.iter().map(|o| o.name()).collect();
